@@ -1338,6 +1338,20 @@ impl<T: Transport, Env: UtpEnvironment> VirtualSocket<T, Env> {
                 return Err(Error::BugRecvInClosed);
             }
             (SynReceived, _) => return Err(Error::BugUnexpectedPacketInSynReceived),
+            // Fin received in an expected state, but its sequence number is wrong
+            (SynAckSent { .. } | Established | FinWait1 { .. } | FinWait2, ST_FIN)
+                if hdr.seq_nr != self.last_consumed_remote_seq_nr + 1 =>
+            {
+                trace!(
+                    hdr=%hdr.short_repr(),
+                    "dropping FIN, expected seq_nr to be {}",
+                    self.last_consumed_remote_seq_nr + 1
+                );
+                #[cfg(librqbit_utp_verif)]
+                vs_event!(self, "disp", what = "fin_out_of_order", seq = hdr.seq_nr, n = 0, bytes = 0);
+                return Ok(Default::default());
+            }
+
             (SynAckSent { .. }, ST_DATA | ST_STATE) => {
                 if hdr.ack_nr != self.seq_nr - 1 {
                     trace!("dropping packet, we expected a different ack_nr");
@@ -1354,20 +1368,6 @@ impl<T: Transport, Env: UtpEnvironment> VirtualSocket<T, Env> {
             }
 
             (Established, ST_DATA | ST_STATE) => {}
-
-            // Fin received in an expected state, but its sequence number is wrong
-            (Established | FinWait1 { .. } | FinWait2, ST_FIN)
-                if hdr.seq_nr != self.last_consumed_remote_seq_nr + 1 =>
-            {
-                trace!(
-                    hdr=%hdr.short_repr(),
-                    "dropping FIN, expected seq_nr to be {}",
-                    self.last_consumed_remote_seq_nr + 1
-                );
-                #[cfg(librqbit_utp_verif)]
-                vs_event!(self, "disp", what = "fin_out_of_order", seq = hdr.seq_nr, n = 0, bytes = 0);
-                return Ok(Default::default());
-            }
 
             (Established, ST_FIN) => {
                 trace!("state: established -> last-ack");
